@@ -1,0 +1,149 @@
+//! Verification hooks (feature `quinn_rs_quinn_verif`): line-protocol executors that drive
+//! crate-private components in-process so an external harness can compare them with a model.
+//!
+//! One request per line, whitespace separated, first token the component; one canonical response
+//! line. Nothing here is used by the library itself.
+#![allow(missing_docs, unreachable_pub, dead_code, clippy::all)]
+
+use std::fmt::Write as _;
+
+use crate::coding::Codec;
+use crate::packet::PacketNumber;
+use crate::VarInt;
+
+use super::spaces::Dedup;
+
+pub(crate) fn hex(b: &[u8]) -> String {
+    if b.is_empty() {
+        return "-".into();
+    }
+    let mut s = String::with_capacity(b.len() * 2);
+    for x in b {
+        write!(s, "{x:02x}").unwrap();
+    }
+    s
+}
+
+pub(crate) fn unhex(s: &str) -> Option<Vec<u8>> {
+    if s == "-" {
+        return Some(Vec::new());
+    }
+    if s.len() % 2 != 0 {
+        return None;
+    }
+    (0..s.len() / 2)
+        .map(|i| u8::from_str_radix(s.get(2 * i..2 * i + 2)?, 16).ok())
+        .collect()
+}
+
+pub(crate) fn num(s: &str) -> Option<u64> {
+    s.parse().ok()
+}
+
+const BAD: &str = "bad-op";
+
+/// All component states addressed by the line protocol
+pub struct Exec {
+    dedup: Dedup,
+}
+
+impl Default for Exec {
+    fn default() -> Self {
+        Self::new()
+    }
+}
+
+impl Exec {
+    pub fn new() -> Self {
+        Self {
+            dedup: Dedup::new(),
+        }
+    }
+
+    /// Execute one request line. May panic exactly where the component panics.
+    pub fn exec(&mut self, line: &str) -> String {
+        let w: Vec<&str> = line.split_ascii_whitespace().collect();
+        match w.split_first() {
+            Some((&"case", _)) => {
+                *self = Self::new();
+                line.trim().to_string()
+            }
+            Some((&"varint", r)) => varint(r),
+            Some((&"pn", r)) => pn(r),
+            Some((&"dedup", r)) => self.dedup(r),
+            _ => BAD.into(),
+        }
+    }
+
+    fn dedup(&mut self, w: &[&str]) -> String {
+        match w {
+            ["new"] => {
+                self.dedup = Dedup::new();
+                "ok".into()
+            }
+            ["insert", p] => {
+                let Some(p) = num(p) else { return BAD.into() };
+                if p == u64::MAX {
+                    return BAD.into();
+                }
+                let dup = self.dedup.insert(p);
+                let (window, next) = self.dedup.verif_state();
+                format!("{dup} {next} {window}")
+            }
+            _ => BAD.into(),
+        }
+    }
+}
+
+fn varint(w: &[&str]) -> String {
+    match w {
+        ["enc", x] => {
+            let Some(x) = num(x) else { return BAD.into() };
+            match VarInt::from_u64(x) {
+                Err(_) => "err bounds".into(),
+                Ok(v) => {
+                    let mut buf = Vec::new();
+                    v.encode(&mut buf);
+                    format!("ok {} {}", hex(&buf), v.size())
+                }
+            }
+        }
+        ["dec", h] => {
+            let Some(b) = unhex(h) else { return BAD.into() };
+            let mut r = &b[..];
+            match VarInt::decode(&mut r) {
+                Ok(v) => format!("ok {} {}", v.into_inner(), b.len() - r.len()),
+                Err(_) => "err end".into(),
+            }
+        }
+        _ => BAD.into(),
+    }
+}
+
+fn pn(w: &[&str]) -> String {
+    match w {
+        ["new", n, la] => {
+            let (Some(n), Some(la)) = (num(n), num(la)) else {
+                return BAD.into();
+            };
+            let p = PacketNumber::new(n, la);
+            let mut buf = Vec::new();
+            p.encode(&mut buf);
+            format!("ok {} {}", p.len(), hex(&buf))
+        }
+        ["expand", h, e] => {
+            let (Some(b), Some(e)) = (unhex(h), num(e)) else {
+                return BAD.into();
+            };
+            if b.is_empty() || b.len() > 4 {
+                return BAD.into();
+            }
+            let mut r = std::io::Cursor::new(&b[..]);
+            match PacketNumber::decode(b.len(), &mut r) {
+                Ok(p) => format!("ok {}", p.expand(e)),
+                Err(_) => "err end".into(),
+            }
+        }
+        _ => BAD.into(),
+    }
+}
